@@ -399,10 +399,17 @@ func (g *c15Prog) pkgsInPathOrder() bool {
 	if len(o) != len(g.Pkgs) {
 		return false
 	}
+	seen := map[int]bool{}
 	for i, p := range g.Pkgs {
 		if o[i] != p.ID || (i > 0 && g.Pkgs[i-1].ID >= p.ID) {
 			return false
 		}
+		for _, im := range p.Imports {
+			if !seen[im.Pkg] {
+				return false
+			}
+		}
+		seen[p.ID] = true
 	}
 	return true
 }
@@ -774,6 +781,73 @@ func (g *c15Gen) program(mode c15Mode, multiPkg, shufflePkgs bool) *c15Prog {
 	return prog
 }
 
+// ---------------------------------------------------------------- witnesses of the theorems (coq/Init/Cases.v [witnesses], same order)
+
+func c15V(n int, refs ...c15Ref) c15Spec {
+	return c15Spec{Kind: c15Pair, Names: []int{n}, Inits: []c15Init{{Log: n, Refs: refs}}}
+}
+func c15RV(n int) c15Ref { return c15Ref{K: 'V', ID: n} }
+func c15RF(n int) c15Ref { return c15Ref{K: 'F', ID: n} }
+func c15RX(n int) c15Ref { return c15Ref{K: 'X', ID: n} }
+
+func c15Body(specs []c15Spec, funcs ...c15Func) *c15Pkg {
+	return &c15Pkg{Specs: specs, Funcs: funcs, NFiles: 1, Grouped: map[int]bool{}}
+}
+
+func c15Single(p *c15Pkg) *c15Prog {
+	p.ID, p.Main = 9, true
+	return &c15Prog{Pkgs: []*c15Pkg{p}, Entry: 9}
+}
+
+func c15Witnesses() []*c15Prog {
+	wPlain := func() *c15Pkg { return c15Body([]c15Spec{c15V(1, c15RV(3)), c15V(2), c15V(3)}) }
+	wSorted := func() *c15Pkg {
+		return c15Body([]c15Spec{
+			c15V(1),
+			{Kind: c15Call, Names: []int{2, 3}, Inits: []c15Init{{Log: 2, Refs: []c15Ref{c15RV(1)}}}},
+			c15V(4, c15RF(10), c15RX(1)),
+			{Kind: c15Pair, Names: []int{5, 6}, Inits: []c15Init{{Log: 5, Refs: []c15Ref{c15RV(3)}}, {Log: 6, Refs: []c15Ref{c15RV(4)}}}},
+		}, c15Func{ID: 10, Refs: []c15Ref{c15RV(2), c15RF(11)}}, c15Func{ID: 11, Refs: []c15Ref{c15RV(1), {K: 'F', ID: 10, Guard: true}}})
+	}
+	mk := func(id int, imports []int, body *c15Pkg, inits []int, main bool) *c15Pkg {
+		body.ID, body.Main = id, main
+		for _, q := range imports {
+			body.Imports = append(body.Imports, c15Import{Pkg: q, Blank: true})
+		}
+		for _, l := range inits {
+			body.Inits = append(body.Inits, c15InitFn{Log: l})
+		}
+		return body
+	}
+	// w_sorted reads v2, declared by `var v2, v3 = lg2(...)`, from f10: yaegi cannot do that from a function
+	// body that runs (host panic, unrelated to ordering), so the reference sits under `if false`.
+	ws := wSorted()
+	ws.Funcs[0].Refs[0].Guard = true
+	ws2 := wSorted()
+	ws2.Funcs[0].Refs[0].Guard = true
+	return []*c15Prog{
+		c15Single(c15Body([]c15Spec{c15V(1, c15RV(3)), c15V(2, c15RV(1)), c15V(3), c15V(4)})),
+		c15Single(c15Body([]c15Spec{c15V(1, c15RF(10)), c15V(2)}, c15Func{ID: 10, Refs: []c15Ref{c15RV(2)}})),
+		c15Single(c15Body([]c15Spec{c15V(1, c15RV(2)), {Kind: c15Call, Names: []int{2, 3}, Inits: []c15Init{{Log: 2, Refs: []c15Ref{c15RV(4)}}}}, c15V(4)})),
+		c15Single(c15Body([]c15Spec{{Kind: c15Pair, Names: []int{1, 2}, Inits: []c15Init{{Log: 1, Refs: []c15Ref{c15RV(3)}}, {Log: 2}}}, c15V(3)})),
+		c15Single(c15Body([]c15Spec{c15V(1, c15RX(2)), c15V(2)})),
+		c15Single(c15Body([]c15Spec{c15V(1, c15RX(2)), c15V(2, c15RV(1))})),
+		{Pkgs: []*c15Pkg{
+			mk(1, nil, c15Body([]c15Spec{c15V(11)}), []int{12}, false),
+			mk(2, nil, c15Body([]c15Spec{c15V(21)}), []int{22}, false),
+			mk(9, []int{2, 1}, c15Body([]c15Spec{c15V(91)}), nil, true)}, Entry: 9},
+		c15Single(c15Body([]c15Spec{c15V(1, c15RV(4)), c15V(2, c15RV(3)), {Kind: c15Call, Names: []int{3, 4}, Inits: []c15Init{{Log: 3}}}})),
+		c15Single(c15Body([]c15Spec{c15V(1, c15RV(3)), c15V(2), {Kind: c15NoInit, Names: []int{3}}})),
+		c15Single(wPlain()),
+		c15Single(ws),
+		{Pkgs: []*c15Pkg{
+			mk(1, nil, wPlain(), []int{7}, false),
+			mk(2, []int{1}, ws2, []int{8}, false),
+			mk(9, []int{1, 2}, wPlain(), []int{9}, true)}, Entry: 9},
+		c15Single(c15Body([]c15Spec{c15V(1, c15RV(2)), c15V(2, c15RV(1)), c15V(3)})),
+	}
+}
+
 // ---------------------------------------------------------------- rendering: Go source
 
 func c15PkgName(id int) string { return fmt.Sprintf("p%02d", id) }
@@ -1127,9 +1201,17 @@ func runC15(args []string) error {
 		viaPath bool
 	}
 	cases := make([]*c15Case, n)
+	wit := c15Witnesses()
 	for i := 0; i < n; i++ {
 		g := &c15Gen{r: root.fork()}
 		c := &c15Case{id: i + 1, name: fmt.Sprintf("c%d", i+1)}
+		if i < len(wit) {
+			c.stream, c.prog = "witness", wit[i]
+			c.region = c.prog.region()
+			c.files = c.prog.sources("ref/" + c.name)
+			cases[i] = c
+			continue
+		}
 		k := g.r.intn(100)
 		multi := g.r.chance(30)
 		switch {
